@@ -124,6 +124,16 @@ def run(res):
         text = make_stream(rnd)
         status = statuses[k % len(statuses)] if res.tier != 'quick' else rnd.choice(statuses)
         sched = {'chunks': chunkings(rnd, text), 'status': status}
+        if k < 2:
+            # always: multi-byte characters (2, 3 and 4 bytes) cut between their bytes, the reader seeing two reads
+            text = 'caf\u00e9 d\u00e9j\u00e0 vu\n[1.000] wl_display@1.sync(new id wl_callback@2)\n\u65e5\u672c\u8a9e \U0001f600 done' + ('\n' if k == 0 else '')
+            data = text.encode('utf-8')
+            cuts = [i for i in range(1, len(data)) if data[i] & 0xC0 == 0x80]
+            parts, prev = [], 0
+            for c in cuts + [len(data)]:
+                parts.append([data[prev:c].hex(), 0.03])
+                prev = c
+            sched = {'chunks': parts, 'status': status}
         extra = rnd.choice([[], ['-g', '--run'], ['a b', '-l', 'x'], ['--', '-C']])
         # the environment wayland-debug itself is started in: WAYLAND_DEBUG already set to something, a library path present or not
         penv = {'WAYLAND_DEBUG': rnd.choice([None, None, '1', '0', '', 'server', 'client']),
